@@ -566,6 +566,20 @@ def spec_func(ex, st, ctx, name, args, node):
         # right arguments in the right order can establish an equation between them
         f = z3.Function("u_" + name, Val, Val, Val, Val)
         return f(args[0], args[1], args[2])
+    if name == "INSTANT":
+        # the instant (epoch seconds) an RFC 3339 text denotes; C08 proves the real parser computes it
+        v = args[0]
+        return VFloat(z3.Function("u_instant", Val, R)(v))
+    if name == "RFC3339_OK":
+        return VBool(z3.Function("u_rfc3339_ok", Val, B)(args[0]))
+    if name == "NOW":
+        return VFloat(st.ghost["__clock"]) if "__clock" in st.ghost else VFloat(fresh("noclock", R))
+    if name == "rmax":
+        a, c = as_real(args[0]), as_real(args[1])
+        return VFloat(z3.If(a >= c, a, c))
+    if name == "rmin":
+        a, c = as_real(args[0]), as_real(args[1])
+        return VFloat(z3.If(a <= c, a, c))
     if name == "fresh_ref":
         return VBool(z3.And(is_Ref(args[0]), rval(args[0]) > 0))
     raise OutOfSubset("spec function " + name, node)
